@@ -270,11 +270,8 @@ func (m *monC15) OnObs(w *World, o *Obs) {
 		if r != nil && r.Current == "State_SwapCanceled" {
 			w.Violate("C15", "pay-after-cancel-state", "node %d started a claim payment for swap %.8s whose record is already canceled", o.Node, si.ID)
 		}
-		for _, x := range w.Obs {
-			if x.Kind == "send" && x.Node == o.Node && x.Msg.Type == MsgCancel && x.Msg.SwapID == si.ID {
-				w.Violate("C15", "pay-after-cancel-sent", "node %d started a claim payment for swap %.8s after it sent cancel for it", o.Node, si.ID)
-			}
-		}
+		// (A cancel *message* sent for this id is not judged here: it may answer a
+		// duplicated request while the swap itself lives on; see DESIGN §11.)
 		n := 0
 		for _, p := range w.LN.PaymentsFor(o.Node, o.Pay.Hash) {
 			if p.State == "settled" {
